@@ -124,4 +124,15 @@ SPECS = {
         'assumptions': _EDIT_ASSUME + ['"same node" = AST node identity (wrappers are documented to be reused)', 'the order reference is pfst\'s own quiescent walk() (C14 decides the order itself)'],
         'real_vs_stub': 'all pfst code ran real; the scheduler acts only at generator yields; stubs: none',
     },
+    'C17': {
+        'engine': 'matchsim', 'mod': 'sim.engines', 'quick': 3000, 'thorough': 50000, 'level': 'exploration',
+        'rule': 'one evaluation = one seeded schedule over 2-4 live search() generators (25 pattern families: types, wildcard, '
+                'MOR/MAND/MNOT, tags, back-references, greedy and non-greedy quantifiers, MRE) on 1-2 trees plus 2-8 plain '
+                'match() calls issued between yields; the scheduler picks who advances; every party result (matched path and '
+                'rendered tags) must equal the same call executed ALONE in a forked child; module-level shared containers '
+                'must stay empty after every step; search(pattern) == [n for n in walk(all=True) if n.match(pattern)]; '
+                'non-trivial = schedule with >= 2 parties interleaved; distinct = digest of (schedule, results)',
+        'assumptions': ['PARTIAL SCOPE: only the state-isolation and search==filtered-walk clauses of C17 are decided; layout independence, self-match and regex-equivalence of quantifiers are pure functions of their input and are not decided here',
+                        'references are computed by pfst itself in a forked child (relational property)'],
+    },
 }
